@@ -14,7 +14,8 @@ def ackCount : List Event → Nat
 
 /-- a SETTINGS frame the peer may expect an acknowledgement for (not itself a protocol violation) -/
 def validSettings (vals : List (Nat × Nat)) : Bool :=
-  !(vals.any (fun p => p.1 == sInitialWindowSize && decide (p.2 > 2147483647)))
+  !(vals.any (fun p => (p.1 == sInitialWindowSize && decide (p.2 > 2147483647)) ||
+      (p.1 == sMaxFrameSize && (decide (p.2 < 16384) || decide (p.2 > 16777215)))))
 
 /-- SETTINGS frames sent by the peer that call for an acknowledgement -/
 def settingsCount : List Event → Nat
@@ -52,6 +53,11 @@ theorem client_pending {m m' : Send} {f : Frame} (h : m.client f = .ok m') :
         rw [← h, foldl_ackSetting_pending]
         simp
   | settings vals =>
+    refine ⟨fun hx => (by cases hx), fun _ => ?_⟩
+    cases hh : m.hdrOpen with
+    | some v => simp [Send.client, hh] at h
+    | none => simp [Send.client, hh] at h; rw [← h]
+  | ping ack d =>
     refine ⟨fun hx => (by cases hx), fun _ => ?_⟩
     cases hh : m.hdrOpen with
     | some v => simp [Send.client, hh] at h
@@ -140,8 +146,10 @@ theorem peer_pending (m : Send) (f : PFrame) :
     · split <;> rfl
   | rst id code => simp only [Send.peer]; split <;> rfl
   | goaway last => rfl
-  | headers id es => simp only [Send.peer]; split <;> rfl
+  | resp id es status cl => simp only [Send.peer]; split <;> rfl
   | data id len pad es => simp only [Send.peer]; split <;> rfl
+  | ping ack d => rfl
+  | pushPromise id p => rfl
 
 /-- bookkeeping of the monitor: pending = SETTINGS sent − acknowledgements received -/
 theorem pending_count (h : List Event) :
@@ -171,6 +179,7 @@ theorem pending_count (h : List Event) :
         | continuation id len eh => have := hp.2 (by simp); simp only [ackCount, settingsCount]; rw [← this]; omega
         | data id len es' => have := hp.2 (by simp); simp only [ackCount, settingsCount]; rw [← this]; omega
         | rst id => have := hp.2 (by simp); simp only [ackCount, settingsCount]; rw [← this]; omega
+        | ping ack d => have := hp.2 (by simp); simp only [ackCount, settingsCount]; rw [← this]; omega
     | p f =>
       simp only [Send.run, Send.step] at hr
       have := ih hr
